@@ -73,6 +73,36 @@ fn step_pool() -> Vec<Step> {
     v
 }
 
+
+/// Keys that read as integers but are not in canonical form sit next to their canonical twins:
+/// a bracket step must select the member whose key is exactly the string given (literal in
+/// either quote style, variable, nested path), never the neighbour `7` for `'007'`.
+fn noncanonical_key_cases() -> Vec<PathCase> {
+    let keys = ["007", "7", "+1", "1", "-0", "0", "00", "1e1", "10", " 3", "3", "0x10", "16", "9223372036854775808", "-9223372036854775809"];
+    let g = RV::Obj(keys.iter().map(|k| (k.to_string(), st(&format!("leaf<{k}>")))).collect());
+    let mut items: Vec<(String, RV)> = vec![("g".into(), g.clone()), ("w".into(), RV::Arr(vec![g.clone()])), ("h".into(), obj(vec![("g", g)]))];
+    for (i, k) in keys.iter().enumerate() {
+        items.push((format!("kv{i}"), st(k)));
+    }
+    items.push(("ks".into(), RV::Arr(keys.iter().map(|k| st(k)).collect())));
+    let data = RV::Obj(items);
+    let mut v = Vec::new();
+    for (i, k) in keys.iter().enumerate() {
+        let forms: Vec<Expr> = vec![
+            Expr::Lit(Lit::Str(k.to_string(), false)),
+            Expr::Lit(Lit::Str(k.to_string(), true)),
+            Expr::var(&format!("kv{i}")),
+            Expr::Var(Var { root: "ks".into(), steps: vec![Step::Idx(Expr::int(i as i64))] }),
+        ];
+        for f in forms {
+            v.push(PathCase { e: Expr::Var(Var { root: "g".into(), steps: vec![Step::Idx(f.clone())] }), data: data.clone() });
+            v.push(PathCase { e: Expr::Var(Var { root: "w".into(), steps: vec![Step::Idx(Expr::int(0)), Step::Idx(f.clone())] }), data: data.clone() });
+            v.push(PathCase { e: Expr::Var(Var { root: "h".into(), steps: vec![Step::Dot("g".into()), Step::Idx(f)] }), data: data.clone() });
+        }
+    }
+    v
+}
+
 fn path_oracle(c: &PathCase, obs: &mut Obs) -> Check {
     let Expr::Var(v) = &c.e else { return Ok(()) };
     let negative_or_special = v.steps.iter().any(|s| match s {
@@ -307,6 +337,7 @@ pub fn run(ctx: &Ctx) {
         let (pool, data) = (&pool, &data);
         ctx.strided("paths_len4_slice", b * n.pow(4), ctx.pick(61, 2), move |i| paths_nth(i, pool, data, 4), path_oracle);
     }
+    ctx.cases("noncanonical_integer_keys", noncanonical_key_cases(), path_oracle);
     ctx.cases("shadowed_paths", shadowed_paths(), shadowed_oracle);
     ctx.cases("int_literals", int_literals(), lit_oracle);
     ctx.cases("quote_edge_literals", quote_edge_cases(), quote_edge_oracle);
